@@ -121,7 +121,7 @@ func runSinkCase(c *fiCase) (o fiObs) {
 	if err != nil {
 		return
 	}
-	sink := &faultSink{sticky: c.Mode == "sticky" || c.Mode == "persist", partial: c.Mode == "partial"}
+	sink := &faultSink{sticky: c.Mode == "sticky" || c.Mode == "persist", partial: c.Mode == "partial" || c.Mode == "partial-retry"}
 	if c.Side == "sink" {
 		sink.failAt = c.K
 	} else {
@@ -172,7 +172,7 @@ func runSinkCase(c *fiCase) (o fiObs) {
 	}
 	closeOK := false
 	closes := 1
-	if c.Mode == "retry" {
+	if c.Mode == "retry" || c.Mode == "partial-retry" {
 		closes = 3
 	}
 	for i := 0; i < closes; i++ {
@@ -208,6 +208,11 @@ func runSinkCase(c *fiCase) (o fiObs) {
 		return
 	}
 	if closeOK {
+		if gw := w.GetWritten(); gw != uint64(sink.buf.Len()) {
+			o.kind = "getwritten-differs-from-sink-after-successful-close"
+			o.detail = fmt.Sprintf("sink fault at call %d (%s, jobs %d): Close finally returned nil, GetWritten()=%d but the sink received %d bytes", c.K, c.Mode, c.Jobs, gw, sink.buf.Len())
+			return
+		}
 		// success was reported in the end: the sink must hold a complete, valid stream of the accepted bytes
 		var hc *kz.Cfg
 		if cf.Headerless {
@@ -328,7 +333,7 @@ func runSourceCase(c *fiCase) (o fiObs) {
 
 func c08(run *core.Run, replay string) {
 	run.SetRule("fault enumeration: for every recipe x job count the fault-free run counts the calls N of the sink's Write (and Close) / the source's Read; then the fault is injected at EVERY k in 1..N in modes " +
-		"transient, transient + caller retries Close, sticky, sticky + client keeps writing after the error (small Write calls), (sink) partial write, (source) error returned together with bytes, (source) the same with short reads and with block ranges given to the Reader (faults while skipped blocks are consumed); the client stops writing at the first error and closes; " +
+		"transient, transient + caller retries Close, partial write + caller retries Close, sticky, sticky + client keeps writing after the error (small Write calls), (sink) partial write, (source) error returned together with bytes, (source) the same with short reads and with block ranges given to the Reader (faults while skipped blocks are consumed); the client stops writing at the first error and closes; " +
 		"oracle: an injected fault must surface as a non-nil error of some call, no panic may escape, a Close that returns nil implies the sink decodes to exactly the accepted bytes, " +
 		"bytes returned by Read are always a prefix of the original and a clean io.EOF implies completeness; non-trivial = the fault was actually injected; distinct = (recipe, side, k, mode, jobs)")
 	check := func(c *fiCase) fiObs {
@@ -413,7 +418,7 @@ func c08(run *core.Run, replay string) {
 			}
 			nw := o.calls
 			for k := 1; k <= nw; k++ {
-				modes := []string{"transient", "retry", "sticky", "persist"}
+				modes := []string{"transient", "retry", "sticky", "persist", "partial-retry"}
 				if run.Thorough() || ri < 2 {
 					modes = append(modes, "partial")
 				}
